@@ -645,7 +645,7 @@ def run_node_scenarios(ctx, scenarios, strict, tag):
             log("[%s] harness exited with %d (node crashed?):\n%s" % (name, rc, out[-800:]))
         if not os.path.exists(tr) or os.path.getsize(tr) == 0:
             raise ToolError("scenario %s produced no trace:\n%s" % (name, out[-2000:]))
-        tv = vlib.validate_trace("trace/NodeTrace.tla", cfg, tr, timeout=3000, heap="6g")
+        tv = vlib.validate_trace("trace/NodeTrace.tla", cfg, tr, timeout=3000 if ctx.quick else 7000, heap="6g")
         tv.trace_file = tr
         tv.crashed = crashed
         tv.name = name
@@ -1037,7 +1037,7 @@ def check_C04(ctx):
 
 # ============================================================================ node-level: maintenance / bootstrap (C11 C15 C16 C18)
 
-def maint_scenarios(ctx, minutes_q=60, minutes_t=240):
+def maint_scenarios(ctx, minutes_q=60, minutes_t=150):
     """(peers, silent-mask, given all / only the first, send failure towards the last peer, seed)"""
     s0 = vlib.seed() % 1000
     q = ctx.quick
